@@ -4,6 +4,7 @@ import Pyrtma.Proofs.ManagerStatsQuiet
 import Pyrtma.Proofs.ManagerSafe
 import Pyrtma.Proofs.ManagerStatsRecv
 import Pyrtma.Proofs.ManagerStatsConn
+import Pyrtma.Proofs.ManagerStatsSubs
 /-!
 # Simulation between the Spec's abstract state and the model, for the statistics (C18)
 
@@ -233,6 +234,73 @@ theorem segF_keeps (cfg : Cfg) (buf : List Nat) (fl : Bool) (rd : Read) (m : AMo
 theorem segF_keep (cfg : Cfg) (buf : List Nat) (fl : Bool) (rd : Read) (m : AMod) (acks : List (Nat × Nat × Frame)) (x : AMod) :
     (segF cfg buf fl rd m acks x).uid = x.uid ∧ (segF cfg buf fl rd m acks x).alive = x.alive :=
   segF_keeps cfg buf fl rd m acks x
+
+/-- an update of an abstract entry that leaves its subscriptions alone -/
+def KeepsS (f : AMod → AMod) : Prop := ∀ x, (f x).uid = x.uid ∧ (f x).subAll = x.subAll ∧ (f x).types = x.types
+
+theorem keepsS_id : KeepsS id := fun _ => ⟨rfl, rfl, rfl⟩
+
+theorem connF_keepsS (cfg : Cfg) (buf : List Nat) (fl : Bool) (m : AMod) (h : Hdr) (acks : List (Nat × Nat × Frame)) :
+    KeepsS (connF cfg buf fl m h acks) := by
+  intro x
+  unfold connF
+  by_cases h1 : (acks.isEmpty && fl) = true
+  · simp only [h1, if_true]; exact ⟨rfl, rfl, rfl⟩
+  · simp only [h1, Bool.false_eq_true, if_false]
+    cases hn : (reqOf cfg m h buf).name with
+    | none => exact ⟨rfl, rfl, rfl⟩
+    | some nm =>
+      simp only
+      by_cases h2 : ((reqOf cfg m h buf).modId != 0) = true
+      · simp only [h2, if_true]
+        by_cases h3 : (!acks.isEmpty) = true
+        · simp only [h3, if_true]; exact ⟨by trivial, by trivial, by trivial⟩
+        · simp only [h3, Bool.false_eq_true, if_false]; exact ⟨by trivial, by trivial, by trivial⟩
+      · simp only [h2, Bool.false_eq_true, if_false]
+        by_cases h3 : (!acks.isEmpty) = true
+        · simp only [h3, if_true]; exact ⟨by trivial, by trivial, by trivial⟩
+        · simp only [h3, Bool.false_eq_true, if_false]; exact ⟨by trivial, by trivial, by trivial⟩
+
+/-- only a (un)subscribe request changes the subscriptions the Spec records -/
+theorem segF_keepsS (cfg : Cfg) (buf : List Nat) (fl : Bool) (rd : Read) (m : AMod) (acks : List (Nat × Nat × Frame))
+    (hns : (rd.h.mtype == cfg.mtConnect || rd.h.mtype == cfg.mtConnectV2) = true ∨ (rd.h.mtype == cfg.mtDisconnect) = true ∨
+      ((rd.h.mtype == cfg.mtSubscribe || rd.h.mtype == cfg.mtResume) = false ∧
+       (rd.h.mtype == cfg.mtUnsubscribe || rd.h.mtype == cfg.mtPause) = false)) :
+    KeepsS (segF cfg buf fl rd m acks) := by
+  unfold segF
+  by_cases h0 : readBroken cfg rd = true
+  · simp only [h0, if_true]; exact keepsS_id
+  · simp only [h0, Bool.false_eq_true, if_false]
+    by_cases h1 : (rd.h.mtype == cfg.mtConnect || rd.h.mtype == cfg.mtConnectV2) = true
+    · simp only [h1, if_true]
+      split
+      · exact keepsS_id
+      · exact connF_keepsS _ _ _ _ _ _
+    · simp only [h1, Bool.false_eq_true, if_false]
+      by_cases h2 : (rd.h.mtype == cfg.mtDisconnect) = true
+      · simp only [h2, if_true]; exact keepsS_id
+      · simp only [h2, Bool.false_eq_true, if_false]
+        have h12 : (rd.h.mtype == cfg.mtSubscribe || rd.h.mtype == cfg.mtResume) = false ∧
+            (rd.h.mtype == cfg.mtUnsubscribe || rd.h.mtype == cfg.mtPause) = false := by
+          rcases hns with h | h | h
+          · exact absurd h h1
+          · exact absurd h h2
+          · exact h
+        have h3 : (rd.h.mtype == cfg.mtSubscribe || rd.h.mtype == cfg.mtResume || rd.h.mtype == cfg.mtUnsubscribe ||
+            rd.h.mtype == cfg.mtPause) = false := by
+          have a1 := h12.1; have a2 := h12.2
+          simp only [Bool.or_eq_false_iff] at a1 a2 ⊢
+          exact ⟨⟨⟨a1.1, a1.2⟩, a2.1⟩, a2.2⟩
+        simp only [h3, Bool.false_eq_true, if_false]
+        by_cases h4 : (rd.h.mtype == cfg.mtSetName) = true
+        · simp only [h4, if_true]
+          cases cstr buf 0 32 with
+          | none => exact keepsS_id
+          | some nm => exact fun _ => ⟨rfl, rfl, rfl⟩
+        · simp only [h4, Bool.false_eq_true, if_false]
+          split
+          · exact fun _ => ⟨rfl, rfl, rfl⟩
+          · exact keepsS_id
 
 theorem segX_uids (cfg : Cfg) (a : A) (rd : Read) (m : AMod) (acks : List (Nat × Nat × Frame)) :
     (segX cfg a rd m acks).mods.map (·.uid) = a.mods.map (·.uid) := by
@@ -539,6 +607,31 @@ theorem tab_step {y y' : State} {ams : List AMod} {e : List Ev} {p : Nat → Boo
   exact ⟨am, mem_depMods_of_open ham hnc, h1.trans hmu, by rw [h2, ht.1], by rw [h3, ht.2.1], by rw [h4, (hk.2 hcl).2],
     by rw [h5, ht.2.2]⟩
 
+/-- the abstract entries know the subscriptions of their table entries -/
+def SubP (cfg : Cfg) (x : State) (ams : List AMod) : Prop := ∀ am ∈ ams, ∀ m, x.find am.uid = some m → SubEq cfg x am m
+
+theorem subEq_keep {cfg : Cfg} {y y' : State} {am am' : AMod} {m m' : Module} (h : SubEq cfg y am m) (hs : m'.subs = m.subs)
+    (hidx : ∀ t, am.uid ∈ idxGet y.idx t → am.uid ∈ idxGet y'.idx t)
+    (ha : am'.uid = am.uid ∧ am'.subAll = am.subAll ∧ am'.types = am.types) : SubEq cfg y' am' m' :=
+  ⟨by rw [ha.2.1, hs]; exact h.all, fun hc => by rw [ha.1]; exact hidx _ (h.idxA (by rw [← ha.2.1]; exact hc)),
+   fun t ht => by rw [ha.1]; exact hidx _ (h.idxT t (by rw [← ha.2.2]; exact ht))⟩
+
+/-- connections an operation keeps open keep their subscriptions, in the table, in the index and in the abstract entries
+    (once the departures of the operation are applied) -/
+theorem sub_step {cfg : Cfg} {y y' : State} {ams : List AMod} {e : List Ev} {p : Nat → Bool}
+    (hsub : ∀ am ∈ ams, p am.uid = false → ∀ m, y.find am.uid = some m → SubEq cfg y am m) (hik : IKR p y y') (hao : AllOpen y') :
+    ∀ am' ∈ depMods ams (closes e), p am'.uid = false → ∀ m', y'.find am'.uid = some m' → SubEq cfg y' am' m' := by
+  intro am' ham' hp m' hm'
+  rw [depMods_eq_map] at ham'
+  obtain ⟨am, ham, rfl⟩ := List.mem_map.mp ham'
+  have hk : (if (closes e).contains am.uid then deadOf am else am).uid = am.uid ∧
+      (if (closes e).contains am.uid then deadOf am else am).subAll = am.subAll ∧
+      (if (closes e).contains am.uid then deadOf am else am).types = am.types := by
+    split <;> exact ⟨rfl, rfl, rfl⟩
+  rw [hk.1] at hp hm'
+  obtain ⟨⟨m, hm, _, hs⟩, hidx⟩ := hik am.uid m' hp hm' (hao am.uid m' hm')
+  exact subEq_keep (hsub am ham hp m hm) hs (fun t => hidx t) hk
+
 structure Sim (cfg : Cfg) (x : State) (a : A) : Prop where
   now : a.now = x.now
   tT : a.tTiming = x.tTiming
@@ -554,6 +647,7 @@ structure Sim (cfg : Cfg) (x : State) (a : A) : Prop where
   buf : a.buf = x.buf
   tab : TabP x a.mods
   zero : ZeroP x
+  subs : SubP cfg x a.mods
 
 /-- frames of a manager type `t` the marks `e` record as handled outside a statistics send (nothing for other types) -/
 def hmgr (cfg : Cfg) (e : List Mark) (t : Int) : Nat := if mgrType cfg t then handled e t else 0
@@ -918,12 +1012,122 @@ theorem read_own {y : State} {a : A} (hI : MInv cfg y) (hS : Sim cfg y a) (rd : 
               rw [hm0] at hm00; cases hm00
               exact tabEq_keep hte hk hcl1 hu1 ⟨rfl, rfl, rfl, rfl, rfl⟩
 
+omit ok hfuel in
+theorem readOne_ikrx {y : State} (hc : y.crashed = none) (rd : Read) (m : Module) (hm : y.find rd.uid = some m) :
+    IKRX rd.uid (afterRead cfg y rd) (readOne cfg y rd) := by
+  rw [readOne_eq cfg y rd hc m hm]
+  show IKRX rd.uid (afterRead cfg y rd)
+      (if readBroken cfg rd then logAt cfg (fwdTop cfg) _ (removeModule cfg (fwdTop cfg) (afterRead cfg y rd) rd.uid)
+       else processMessage cfg (afterRead cfg y rd) rd.uid rd.h)
+  split
+  · exact (removeTop_ikr cfg _ _ rd.uid).trans (logTop_ikr cfg _ _ _)
+  · exact process_ikrx cfg _ _ _
+
+/-- **the subscriptions of the connection a frame was read from**: what `segF` records is what the model's table and
+    index hold afterwards (if the connection is still in the table) -/
+theorem read_own_sub {y : State} {a : A} (hI : MInv cfg y) (hS : Sim cfg y a) (rd : Read) (m : Module)
+    (hm : y.find rd.uid = some m) (am : AMod) (hu : am.uid = rd.uid) (hse : SubEq cfg y am m) (fl : Bool)
+    (acks : List (Nat × Nat × Frame)) (m1 : Module) (hm1 : (readOne cfg y rd).find rd.uid = some m1) :
+    SubEq cfg (readOne cfg y rd) (segF cfg (bufAfter cfg a.buf rd) fl rd am acks am) m1 := by
+  have hI1 := minv_readOne ok hfuel hI rd
+  have hcl1 : m1.closed = false := hI1.top.aopen rd.uid m1 hm1
+  have hm0 : (afterRead cfg y rd).find rd.uid = some m := hm
+  have hse0 : SubEq cfg (afterRead cfg y rd) am m := ⟨hse.all, hse.idxA, hse.idxT⟩
+  have hbuf : bufAfter cfg a.buf rd = (afterRead cfg y rd).buf := by rw [hS.buf]; rfl
+  have he : readOne cfg y rd =
+      (if readBroken cfg rd then
+        logAt cfg (fwdTop cfg) (if rd.hdrErr || (!(!rd.hdrOk || rd.h.nbytes < 0 || rd.h.nbytes > cfg.bufMax) && rd.payErr) then 40 else 30)
+          (removeModule cfg (fwdTop cfg) (afterRead cfg y rd) rd.uid)
+       else processMessage cfg (afterRead cfg y rd) rd.uid rd.h) := readOne_eq cfg y rd hI.top.good.ok m hm
+  have hg : ∀ (lvl : Nat) (s0 : State), (logAt cfg (fwdTop cfg) lvl (removeModule cfg (fwdTop cfg) s0 rd.uid)).find rd.uid = none :=
+    fun lvl s0 => rkp_gone (logTop_rk cfg (fun _ => false) lvl _) (u := rd.uid) rfl (removeModule_gone cfg (fwdTop cfg) s0 rd.uid)
+  by_cases hb : readBroken cfg rd = true
+  · exfalso
+    rw [he] at hm1
+    simp only [hb, if_true] at hm1
+    rw [hg] at hm1; cases hm1
+  · have hb' : readBroken cfg rd = false := by simpa using hb
+    have he' : readOne cfg y rd = processMessage cfg (afterRead cfg y rd) rd.uid rd.h := by
+      rw [he]; simp only [hb', Bool.false_eq_true, if_false]
+    -- a frame that is no (un)subscribe request
+    have generic : ((rd.h.mtype == cfg.mtConnect || rd.h.mtype == cfg.mtConnectV2) = true ∨ (rd.h.mtype == cfg.mtDisconnect) = true ∨
+        ((rd.h.mtype == cfg.mtSubscribe || rd.h.mtype == cfg.mtResume) = false ∧
+         (rd.h.mtype == cfg.mtUnsubscribe || rd.h.mtype == cfg.mtPause) = false)) →
+        SubEq cfg (readOne cfg y rd) (segF cfg (bufAfter cfg a.buf rd) fl rd am acks am) m1 := by
+      intro hns
+      have hk := segF_keepsS cfg (bufAfter cfg a.buf rd) fl rd am acks hns am
+      have hik : IKR (fun _ => false) (afterRead cfg y rd) (readOne cfg y rd) := by
+        rw [he']; exact process_ikr_nosub cfg _ _ _ _ hns
+      obtain ⟨⟨m0, hm00, _, hs⟩, hidx⟩ := hik rd.uid m1 rfl hm1 hcl1
+      rw [hm0] at hm00; cases hm00
+      exact subEq_keep hse0 hs (by rw [hu]; exact hidx) hk
+    by_cases hc : (rd.h.mtype == cfg.mtConnect || rd.h.mtype == cfg.mtConnectV2) = true
+    · exact generic (Or.inl hc)
+    · have hc' : (rd.h.mtype == cfg.mtConnect || rd.h.mtype == cfg.mtConnectV2) = false := by simpa using hc
+      by_cases hd : (rd.h.mtype == cfg.mtDisconnect) = true
+      · exact generic (Or.inr (Or.inl hd))
+      · have hd' : (rd.h.mtype == cfg.mtDisconnect) = false := by simpa using hd
+        by_cases h1 : (rd.h.mtype == cfg.mtSubscribe || rd.h.mtype == cfg.mtResume) = true
+        · -- a subscribe request
+          have h4 : (rd.h.mtype == cfg.mtSubscribe || rd.h.mtype == cfg.mtResume || rd.h.mtype == cfg.mtUnsubscribe ||
+              rd.h.mtype == cfg.mtPause) = true := by
+            simp only [Bool.or_eq_true] at h1 ⊢
+            rcases h1 with h | h
+            · exact Or.inl (Or.inl (Or.inl h))
+            · exact Or.inl (Or.inl (Or.inr h))
+          have hseg : segF cfg (bufAfter cfg a.buf rd) fl rd am acks am = subF cfg (bufI32 (afterRead cfg y rd).buf 0) true am := by
+            unfold segF subF
+            simp only [hb', hc', hd', h4, h1, hbuf, Bool.false_eq_true, if_false, if_true, Bool.true_or]
+          have hfin : readOne cfg y rd =
+              sendAck cfg (addSub cfg (afterRead cfg y rd) rd.uid (bufI32 (afterRead cfg y rd).buf 0)) rd.uid := by
+            rw [he']; unfold processMessage
+            simp only [hc', hd', h1, Bool.false_eq_true, if_false, if_true]
+          obtain ⟨m', hf', _, hse'⟩ := addSubCore_subEq cfg (afterRead cfg y rd) rd.uid m hm0 am hu hse0 (bufI32 (afterRead cfg y rd).buf 0)
+          have hik : IKR (fun _ => false) (addSubCore cfg (afterRead cfg y rd) rd.uid (bufI32 (afterRead cfg y rd).buf 0)) (readOne cfg y rd) := by
+            rw [hfin]; unfold addSub
+            split
+            · exact (logTop_ikr cfg _ 10 _).trans (sendAck_ikr cfg _ _ _)
+            · exact sendAck_ikr cfg _ _ _
+          obtain ⟨⟨m0, hm00, _, hs⟩, hidx⟩ := hik rd.uid m1 rfl hm1 hcl1
+          rw [hf'] at hm00; cases hm00
+          rw [hseg]
+          exact subEq_keep hse' hs (by rw [subF_uid, hu]; exact hidx) ⟨rfl, rfl, rfl⟩
+        · have h1' : (rd.h.mtype == cfg.mtSubscribe || rd.h.mtype == cfg.mtResume) = false := by simpa using h1
+          by_cases h2 : (rd.h.mtype == cfg.mtUnsubscribe || rd.h.mtype == cfg.mtPause) = true
+          · -- an unsubscribe request
+            have h4 : (rd.h.mtype == cfg.mtSubscribe || rd.h.mtype == cfg.mtResume || rd.h.mtype == cfg.mtUnsubscribe ||
+                rd.h.mtype == cfg.mtPause) = true := by
+              simp only [Bool.or_eq_true] at h2 ⊢
+              rcases h2 with h | h
+              · exact Or.inl (Or.inr h)
+              · exact Or.inr h
+            have hseg : segF cfg (bufAfter cfg a.buf rd) fl rd am acks am = subF cfg (bufI32 (afterRead cfg y rd).buf 0) false am := by
+              unfold segF subF
+              simp only [hb', hc', hd', h4, h1', h2, hbuf, Bool.false_eq_true, if_false, if_true, Bool.false_or]
+            have hfin : readOne cfg y rd =
+                sendAck cfg (removeSub cfg (afterRead cfg y rd) rd.uid (bufI32 (afterRead cfg y rd).buf 0)) rd.uid := by
+              rw [he']; unfold processMessage
+              simp only [hc', hd', h1', h2, Bool.false_eq_true, if_false, if_true]
+            obtain ⟨m', hf', _, hse'⟩ := removeSubCore_subEq cfg (afterRead cfg y rd) rd.uid m hm0 am hu hse0 (bufI32 (afterRead cfg y rd).buf 0)
+            have hik : IKR (fun _ => false) (removeSubCore cfg (afterRead cfg y rd) rd.uid (bufI32 (afterRead cfg y rd).buf 0)) (readOne cfg y rd) := by
+              rw [hfin]; unfold removeSub
+              split
+              · exact (logTop_ikr cfg _ 10 _).trans (sendAck_ikr cfg _ _ _)
+              · exact sendAck_ikr cfg _ _ _
+            obtain ⟨⟨m0, hm00, _, hs⟩, hidx⟩ := hik rd.uid m1 rfl hm1 hcl1
+            rw [hf'] at hm00; cases hm00
+            rw [hseg]
+            exact subEq_keep hse' hs (by rw [subF_uid, hu]; exact hidx) ⟨rfl, rfl, rfl⟩
+          · have h2' : (rd.h.mtype == cfg.mtUnsubscribe || rd.h.mtype == cfg.mtPause) = false := by simpa using h2
+            exact generic (Or.inr (Or.inr ⟨h1', h2'⟩))
+
 /-- **one frame read keeps the simulation**: the abstract state after `segX` and the departures of the segment's own
     events corresponds to the model state after `readOne` -/
 theorem read_sim {y : State} {a : A} (hI : MInv cfg y) (hS : Sim cfg y a) (rd : Read) (m : Module)
-    (hm : y.find rd.uid = some m) (h0 : rd.uid ≠ 0) :
+    (hm : y.find rd.uid = some m) (h0 : rd.uid ≠ 0) (hW : WL y a) :
     ∃ e am, (readOne cfg y rd).out = y.out ++ .rd rd.uid :: e ∧ NoRd e ∧ a.get rd.uid = some am ∧ am.alive = true ∧
-      Sim cfg (readOne cfg y rd) (applyDepartures (segX cfg a rd am (acksOf e)) e) := by
+      Sim cfg (readOne cfg y rd) (applyDepartures (segX cfg a rd am (acksOf e)) e) ∧
+      WL (readOne cfg y rd) (applyDepartures (segX cfg a rd am (acksOf e)) e) := by
   obtain ⟨e, hE⟩ := readOne_events hI.k hI.top.good.ok rd m hm
   obtain ⟨mk, hA, hcli⟩ := readOne_marks ok hfuel hI rd m hm
   have hbound : rd.uid ≤ y.nextUid := by
@@ -931,12 +1135,25 @@ theorem read_sim {y : State} {a : A} (hI : MInv cfg y) (hS : Sim cfg y a) (rd : 
   obtain ⟨am, hget, hmem, huid⟩ := sim_get hS (by omega) hbound
   have hopen : isOpen y rd.uid = true := by rw [isOpen_iff_find hI.top, hm]; rfl
   have halive : am.alive = true := by rw [hS.alive am hmem, huid]; exact hopen
-  refine ⟨e, am, by rw [hE.out]; simp [afterRead, State.emit], hE.nord, hget, halive, ?_⟩
+  refine ⟨e, am, by rw [hE.out]; simp [afterRead, State.emit], hE.nord, hget, halive, ?_, ?_⟩
+  rotate_left
+  · refine wl_step hW hE.wlist (by rw [applyDepartures_eq]; rfl) (fun am' ham' hal => ?_)
+    rw [applyDepartures_eq] at ham'
+    have hx := alive_of_dep ham' hal
+    unfold segX at hx
+    obtain ⟨x0, hx0, rfl⟩ := List.mem_map.mp hx
+    refine ⟨x0, hx0, ?_, ?_⟩
+    · split
+      · exact (segF_keep ..).1.symm
+      · rfl
+    · split at hal
+      · rw [(segF_keep ..).2] at hal; exact hal
+      · exact hal
   rw [applyDepartures_eq]
   refine ⟨hS.now.trans hA.now.symm, hS.tT.trans hA.tT.symm, hS.tR.trans hA.tR.symm, hS.tI.trans hA.tI.symm,
     hS.seq.trans hA.seq.symm, hS.nacc.trans hE.nuid.symm, ?_, ?_, hS.fail.trans hE.fail.symm, ?_, ?_, ?_, ?_,
     zero_step (y := afterRead cfg y rd) hS.zero (readOne_rkx hI.top.good.ok rd m hm) (by simpa using Ne.symm h0)
-      (minv_readOne ok hfuel hI rd).k.distinct⟩
+      (minv_readOne ok hfuel hI rd).k.distinct, ?_⟩
   rotate_left 4
   · show bufAfter cfg a.buf rd = _
     rw [hA.buf, hS.buf]; rfl
@@ -967,6 +1184,25 @@ theorem read_sim {y : State} {a : A} (hI : MInv cfg y) (hS : Sim cfg y a) (rd : 
       obtain ⟨am2, ham2, hte2⟩ := hS.tab m2 hm2 h02
       have hne : (am2.uid == rd.uid) = false := by rw [hte2.1]; exact hp2
       exact ⟨am2, List.mem_map.mpr ⟨am2, ham2, by simp [hne]⟩, hte2⟩
+  · -- the subscriptions
+    have hI1 := minv_readOne ok hfuel hI rd
+    show SubP cfg _ (depMods (segX cfg a rd am (acksOf e)).mods (closes e))
+    intro am1 ham1
+    refine sub_step (y := readOne cfg y rd) (p := fun _ => false) ?_ (IKR.refl _ _) hI1.top.aopen am1 ham1 rfl
+    intro x1 hx1 _ m1 hm1
+    unfold segX at hx1
+    obtain ⟨x0, hx0, rfl⟩ := List.mem_map.mp hx1
+    by_cases hu0 : (x0.uid == rd.uid) = true
+    · simp only [hu0, if_true] at hm1 ⊢
+      have hx0u : x0.uid = rd.uid := by simpa using hu0
+      have : x0 = am := sim_unique hS hx0 hmem (hx0u.trans huid.symm)
+      subst this
+      rw [(segF_keep ..).1, hx0u] at hm1
+      exact read_own_sub ok hfuel hI hS rd m hm x0 hx0u (hS.subs x0 hx0 m (by rw [hx0u]; exact hm)) _ _ m1 hm1
+    · have hu0' : (x0.uid == rd.uid) = false := by simpa using hu0
+      simp only [hu0', Bool.false_eq_true, if_false] at hm1 ⊢
+      obtain ⟨⟨m0, hm00, _, hs⟩, hidx⟩ := readOne_ikrx hI.top.good.ok rd m hm x0.uid m1 hu0' hm1 (hI1.top.aopen _ _ hm1)
+      exact subEq_keep (hS.subs x0 hx0 m0 hm00) hs hidx ⟨rfl, rfl, rfl⟩
   · show (depMods (segX cfg a rd am (acksOf e)).mods (closes e)).map (·.uid) = _
     rw [depMods_uids, segX_uids, hS.uids, hE.nuid]; rfl
   · refine alive_step (y := afterRead cfg y rd) ?_ hE.cons
@@ -993,14 +1229,16 @@ theorem read_sim {y : State} {a : A} (hI : MInv cfg y) (hS : Sim cfg y a) (rd : 
 omit ok hfuel in
 /-- an operation that handles manager-originated frames only keeps the simulation once its departures are applied -/
 theorem sim_step {y y' : State} {a : A} {e : List Ev} {mk : List Mark} {P : Int → Bool} (hE : EvE y y' e)
-    (hA : AccE cfg P y y' mk) (hcli : cliMarks cfg mk = []) (hrk : RK y y') (hd' : UidsDistinct y') (hao : AllOpen y')
+    (hA : AccE cfg P y y' mk) (hcli : cliMarks cfg mk = []) (hrk : RK y y') (hik : IKR (fun _ => false) y y')
+    (hd' : UidsDistinct y') (hao : AllOpen y')
     (hS : Sim cfg y a) : Sim cfg y' (applyDepartures a e) := by
   rw [applyDepartures_eq]
   refine ⟨hS.now.trans hA.now.symm, hS.tT.trans hA.tT.symm, hS.tR.trans hA.tR.symm, hS.tI.trans hA.tI.symm,
     hS.seq.trans hA.seq.symm, hS.nacc.trans hE.nuid.symm, ?_, alive_step hS.alive hE.cons, hS.fail.trans hE.fail.symm, ?_, ?_,
     hS.buf.trans hA.buf.symm,
     fun m' hm' h0 => tab_step (p := fun _ => false) (fun m hm h0 _ => hS.tab m hm h0) hrk hE.cons hd' hao m' hm' h0 rfl,
-    zero_step hS.zero hrk rfl hd'⟩
+    zero_step hS.zero hrk rfl hd',
+    fun am' ham' => sub_step (p := fun _ => false) (fun am ham _ => hS.subs am ham) hik hao am' ham' rfl⟩
   · show (depMods a.mods (closes e)).map (·.uid) = _
     rw [depMods_uids, hS.uids, hE.nuid]
   · show a.pubT = _
@@ -1018,7 +1256,7 @@ theorem accept_sim {y : State} {a : A} (hI : MInv cfg y) (hS : Sim cfg y a) :
   obtain ⟨pre, hE⟩ := logTop_ev cfg 20 hI.k.distinct
   obtain ⟨mk, hA⟩ := logAt_macc cfg 20 y
   have hTl := top_log ok hfuel hI.top 20
-  have hS1 := sim_step hE hA (cliMarks_mgr cfg hA.marks) (logTop_rk cfg _ 20 y) (hE.distinct hI.k.distinct) hTl.aopen hS
+  have hS1 := sim_step hE hA (cliMarks_mgr cfg hA.marks) (logTop_rk cfg _ 20 y) (logTop_ikr cfg _ 20 y) (hE.distinct hI.k.distinct) hTl.aopen hS
   generalize hyl : logAt cfg (fwdTop cfg) 20 y = yl at hE hA hS1
   have hacc : acceptStep cfg y = { yl with nextUid := yl.nextUid + 1, mods := yl.mods ++ [{ uid := yl.nextUid + 1 }] } := by
     unfold acceptStep; rw [hyl]
@@ -1052,7 +1290,7 @@ theorem accept_sim {y : State} {a : A} (hI : MInv cfg y) (hS : Sim cfg y a) :
     simp [hnew']
   have hn1 : yl.nextUid = a.nAccepted := hS1.nacc.symm
   refine ⟨hS1.now, hS1.tT, hS1.tR, hS1.tI, hS1.seq, by show a.nAccepted + 1 = yl.nextUid + 1; rw [hn1], ?_, ?_, hS1.fail, hS1.pubT, hS1.pubR,
-    hS1.buf, ?_, ?_⟩
+    hS1.buf, ?_, ?_, ?_⟩
   rotate_left 2
   · intro m hm h0
     have hm' : m ∈ yl.mods ++ [({ uid := yl.nextUid + 1 } : Module)] := hm
@@ -1068,6 +1306,42 @@ theorem accept_sim {y : State} {a : A} (hI : MInv cfg y) (hS : Sim cfg y a) :
     rcases List.mem_append.mp hm' with h1 | h1
     · exact hS1.zero m h1 h0
     · simp at h1; subst h1; rfl
+  · -- the subscriptions: the new entry has none
+    have hd2 : UidsDistinct ({ yl with nextUid := yl.nextUid + 1, mods := yl.mods ++ [{ uid := yl.nextUid + 1 }] } : State) := by
+      rw [← hacc]; exact hIa.k.distinct
+    have hdl : UidsDistinct yl := hE.distinct hI.k.distinct
+    intro am ham m hm
+    have ham' : am ∈ depMods a.mods (closes pre) ++ [({ uid := a.nAccepted + 1 } : AMod)] := by rw [← hdm]; exact ham
+    have hmm : m ∈ yl.mods ++ [({ uid := yl.nextUid + 1 } : Module)] := mem_of_find hm
+    have hmu : m.uid = am.uid := find_uid hm
+    rcases List.mem_append.mp ham' with h1 | h1
+    · have hle : am.uid ≤ yl.nextUid := by
+        have hu : am.uid ∈ (depMods a.mods (closes pre)).map (·.uid) := List.mem_map.mpr ⟨am, h1, rfl⟩
+        have := hS1.uids
+        simp only at this
+        rw [this] at hu
+        obtain ⟨i, hi, he⟩ := List.mem_map.mp hu
+        simp at hi; omega
+      rcases List.mem_append.mp hmm with h2 | h2
+      · have hf : yl.find am.uid = some m := by rw [← hmu]; exact find_of_mem hdl h2
+        have := hS1.subs am h1 m hf
+        exact ⟨this.all, this.idxA, this.idxT⟩
+      · simp at h2; subst h2
+        exfalso
+        have : yl.nextUid + 1 = am.uid := hmu
+        omega
+    · simp at h1; subst h1
+      have hnew : ({ uid := yl.nextUid + 1 } : Module) ∈ yl.mods ++ [({ uid := yl.nextUid + 1 } : Module)] := by simp
+      have hfn := find_of_mem hd2 hnew
+      have hm' : ({ yl with nextUid := yl.nextUid + 1, mods := yl.mods ++ [{ uid := yl.nextUid + 1 }] } : State).find (yl.nextUid + 1) = some m := by
+        have hm2 := hm
+        simp only [hn1.symm] at hm2 ⊢
+        exact hm2
+      have : m = ({ uid := yl.nextUid + 1 } : Module) := by
+        have := hm'.symm.trans hfn
+        exact Option.some.inj this
+      subst this
+      exact ⟨rfl, fun h => (by cases h), fun _ h => (by cases h)⟩
   · show (depMods (a.mods ++ [({ uid := a.nAccepted + 1 } : AMod)]) (closes pre)).map (·.uid) = (List.range (yl.nextUid + 1)).map (· + 1)
     rw [hdm, List.map_append, List.range_succ, List.map_append]
     have := hS1.uids
@@ -1100,23 +1374,23 @@ theorem accept_sim {y : State} {a : A} (hI : MInv cfg y) (hS : Sim cfg y a) :
 /-- **all frames of a round**: the model's `readAll` and the Spec's `goCore` stay in step.  `segs` are the segments of the
     frames the model actually handled (those whose connection was still in the table at their turn), `T` whatever follows
     the last of them in the round's log (the periodic section) -/
-theorem go_sim : ∀ (reads : List Read) {y : State} {a : A}, MInv cfg y → Sim cfg y a → (∀ rd ∈ reads, rd.uid ≠ 0) →
+theorem go_sim : ∀ (reads : List Read) {y : State} {a : A}, MInv cfg y → Sim cfg y a → WL y a → (∀ rd ∈ reads, rd.uid ≠ 0) →
     ∃ segs a', (readAll cfg reads y).out = y.out ++ flatSegs segs ∧ NoRdSegs segs ∧
-      MInv cfg (readAll cfg reads y) ∧ Sim cfg (readAll cfg reads y) a' ∧ a'.recvT = a.recvT ∧ a'.recvR = a.recvR ∧ a'.errs = a.errs ∧
+      MInv cfg (readAll cfg reads y) ∧ Sim cfg (readAll cfg reads y) a' ∧ WL (readAll cfg reads y) a' ∧ a'.recvT = a.recvT ∧ a'.recvR = a.recvR ∧ a'.errs = a.errs ∧
       ∀ T, NoRd T → acksOf T = [] →
         goCore cfg (applyDepartures a (if segs = [] then T else [])) reads (addLast segs T) = applyDepartures a' T
-  | [], y, a, hI, hS, _ => by
-    refine ⟨[], a, (by simp [readAll, flatSegs]), (fun _ h => by cases h), hI, hS, rfl, rfl, rfl, fun T _ _ => ?_⟩
+  | [], y, a, hI, hS, hW, _ => by
+    refine ⟨[], a, (by simp [readAll, flatSegs]), (fun _ h => by cases h), hI, hS, hW, rfl, rfl, rfl, fun T _ _ => ?_⟩
     simp [goCore]
-  | rd :: rest, y, a, hI, hS, h0 => by
+  | rd :: rest, y, a, hI, hS, hW, h0 => by
     have h0' : ∀ r ∈ rest, r.uid ≠ 0 := fun r hr => h0 r (by simp [hr])
     unfold readAll
     cases hm : y.find rd.uid with
     | none =>
       have hy : readOne cfg y rd = y := by unfold readOne; simp [hm]
       rw [hy]
-      obtain ⟨segs, a', ho, hn, hI', hS', hrT, hrR, hrE, hgo⟩ := go_sim rest hI hS h0'
-      refine ⟨segs, a', ho, hn, hI', hS', hrT, hrR, hrE, fun T hT hA => ?_⟩
+      obtain ⟨segs, a', ho, hn, hI', hS', hW', hrT, hrR, hrE, hgo⟩ := go_sim rest hI hS hW h0'
+      refine ⟨segs, a', ho, hn, hI', hS', hW', hrT, hrR, hrE, fun T hT hA => ?_⟩
       rw [← hgo T hT hA]
       generalize (if segs = [] then T else []) = L
       conv => lhs; unfold goCore
@@ -1134,10 +1408,10 @@ theorem go_sim : ∀ (reads : List Read) {y : State} {a : A}, MInv cfg y → Sim
           · exact hdead
         simp only [this, Bool.not_false, if_true]
     | some m =>
-      obtain ⟨e, am, ho1, hne, hget, halive, hS1⟩ := read_sim ok hfuel hI hS rd m hm (h0 rd (by simp))
+      obtain ⟨e, am, ho1, hne, hget, halive, hS1, hW1⟩ := read_sim ok hfuel hI hS rd m hm (h0 rd (by simp)) hW
       have hI1 := minv_readOne ok hfuel hI rd
-      obtain ⟨segs', a', ho, hn, hI', hS', hrT, hrR, hrE, hgo⟩ := go_sim rest hI1 hS1 h0'
-      refine ⟨(rd.uid, e) :: segs', a', ?_, ?_, hI', hS', by rw [hrT, applyDepartures_eq]; rfl,
+      obtain ⟨segs', a', ho, hn, hI', hS', hW', hrT, hrR, hrE, hgo⟩ := go_sim rest hI1 hS1 hW1 h0'
+      refine ⟨(rd.uid, e) :: segs', a', ?_, ?_, hI', hS', hW', by rw [hrT, applyDepartures_eq]; rfl,
         by rw [hrR, applyDepartures_eq]; rfl, by rw [hrE, applyDepartures_eq]; rfl, fun T hT hA => ?_⟩
       · rw [ho, ho1]; simp [flatSegs]
       · intro p hp
@@ -1158,7 +1432,7 @@ theorem go_sim : ∀ (reads : List Read) {y : State} {a : A}, MInv cfg y → Sim
 
 omit ok hfuel in
 theorem sim_w {x : State} {a : A} (h : Sim cfg x a) (w : List Nat) : Sim cfg x { a with w := w } :=
-  ⟨h.now, h.tT, h.tR, h.tI, h.seq, h.nacc, h.uids, h.alive, h.fail, h.pubT, h.pubR, h.buf, h.tab, h.zero⟩
+  ⟨h.now, h.tT, h.tR, h.tI, h.seq, h.nacc, h.uids, h.alive, h.fail, h.pubT, h.pubR, h.buf, h.tab, h.zero, h.subs⟩
 
 omit ok hfuel in
 /-- the frames the Spec expects to be read are the frames the model reads -/
@@ -1184,13 +1458,14 @@ theorem roundReads_eq {x : State} {a : A} (hI : MInv cfg x) (hS : Sim cfg x a) (
 /-- **the I/O part of a round**: after the clock/environment step, the accept and all frames read, the model state
     corresponds to the abstract state `a'`, and `goCore` on the round's log (`T` = whatever the periodic section will
     append) yields `a'` with the departures of `T` -/
-theorem pre_sim {x : State} {a : A} (hI : MInv cfg x) (hS : Sim cfg x a) (hx : x.out = []) (hna : MgrNotAll cfg)
+theorem pre_sim {x : State} {a : A} (hI : MInv cfg x) (hS : Sim cfg x a) (hW : WL x a) (hx : x.out = []) (hna : MgrNotAll cfg)
     (hord : OrderGood cfg) (r : Round) (h0 : ∀ rd ∈ r.reads, rd.uid ≠ 0) :
     ∃ preM segs a',
       (ioStep cfg (envStep x r) r.accept r.writable (r.reads.filter (fun rd => ((envStep x r).find rd.uid).isSome))).out =
         preM ++ flatSegs segs ∧ NoRd preM ∧ NoRdSegs segs ∧
       MInv cfg (ioStep cfg (envStep x r) r.accept r.writable (r.reads.filter (fun rd => ((envStep x r).find rd.uid).isSome))) ∧
       Sim cfg (ioStep cfg (envStep x r) r.accept r.writable (r.reads.filter (fun rd => ((envStep x r).find rd.uid).isSome))) a' ∧
+      WL (ioStep cfg (envStep x r) r.accept r.writable (r.reads.filter (fun rd => ((envStep x r).find rd.uid).isSome))) a' ∧
       RB cfg (envStep x r) (ioStep cfg (envStep x r) r.accept r.writable (r.reads.filter (fun rd => ((envStep x r).find rd.uid).isSome))) zeroX ∧
       a'.recvT = a.recvT ∧ a'.recvR = a.recvR ∧ a'.errs = a.errs ∧
       ∀ T, NoRd T → acksOf T = [] →
@@ -1203,11 +1478,13 @@ theorem pre_sim {x : State} {a : A} (hI : MInv cfg x) (hS : Sim cfg x a) (hx : x
   have hx1 : (envStep x r).out = [] := hx
   -- the abstract state after the clock / environment step
   have hS1 : Sim cfg (envStep x r) { a with now := a.now + r.dt, fail := (r.failSet.filter (·.1 ≤ a.nAccepted)).foldl (fun fl (p : Nat × Option FailMode) => setFail fl p.1 p.2) a.fail } := by
-    refine ⟨?_, hS.tT, hS.tR, hS.tI, hS.seq, hS.nacc, hS.uids, hS.alive, ?_, hS.pubT, hS.pubR, hS.buf, hS.tab, hS.zero⟩
+    refine ⟨?_, hS.tT, hS.tR, hS.tI, hS.seq, hS.nacc, hS.uids, hS.alive, ?_, hS.pubT, hS.pubR, hS.buf, hS.tab, hS.zero,
+      fun am ham m hm => ⟨(hS.subs am ham m hm).all, (hS.subs am ham m hm).idxA, (hS.subs am ham m hm).idxT⟩⟩
     · show a.now + r.dt = x.now + r.dt; rw [hS.now]
     · show _ = (r.failSet.filter (·.1 ≤ x.nextUid)).foldl (fun fl p => setFail fl p.1 p.2) x.fail
       rw [hS.nacc, hS.fail]
-  generalize ha1 : ({ a with now := a.now + r.dt, fail := (r.failSet.filter (·.1 ≤ a.nAccepted)).foldl (fun fl (p : Nat × Option FailMode) => setFail fl p.1 p.2) a.fail } : A) = a1 at hS1
+  have hW1 : WL (envStep x r) { a with now := a.now + r.dt, fail := (r.failSet.filter (·.1 ≤ a.nAccepted)).foldl (fun fl (p : Nat × Option FailMode) => setFail fl p.1 p.2) a.fail } := hW
+  generalize ha1 : ({ a with now := a.now + r.dt, fail := (r.failSet.filter (·.1 ≤ a.nAccepted)).foldl (fun fl (p : Nat × Option FailMode) => setFail fl p.1 p.2) a.fail } : A) = a1 at hS1 hW1
   have hr1T : a1.recvT = a.recvT := by subst ha1; rfl
   have hr1R : a1.recvR = a.recvR := by subst ha1; rfl
   have hr1E : a1.errs = a.errs := by subst ha1; rfl
@@ -1221,7 +1498,7 @@ theorem pre_sim {x : State} {a : A} (hI : MInv cfg x) (hS : Sim cfg x a) (hx : x
     unfold roundEnv
     simp only [hrr, hreads, ← ha1]
   rw [hrE]
-  generalize hx1e : envStep x r = x1 at hI1 hx1 hS1
+  generalize hx1e : envStep x r = x1 at hI1 hx1 hS1 hW1
   unfold ioStep
   by_cases hC : (r.accept || !reads.isEmpty) = true
   · simp only [hC, if_true]
@@ -1254,9 +1531,34 @@ theorem pre_sim {x : State} {a : A} (hI : MInv cfg x) (hS : Sim cfg x a) (hx : x
       rw [e1]
       have := sim_w hSA wa
       exact ⟨this.now, this.tT, this.tR, this.tI, this.seq, this.nacc, this.uids, this.alive, this.fail, this.pubT, this.pubR,
-        this.buf, this.tab, this.zero⟩
-    obtain ⟨segs, a', ho, hn, hI', hS', hrT, hrR, hrE, hgo⟩ := go_sim ok hfuel reads hIW hSW h0'
-    refine ⟨preM, segs, a', by rw [ho]; show xA.out ++ _ = _; rw [hoA], hnA, hn, hI', hS', ?_, ?_, ?_, ?_, fun T hT hA => ?_⟩
+        this.buf, this.tab, this.zero,
+        fun am ham m hm => ⟨(this.subs am ham m hm).all, (this.subs am ham m hm).idxA, (this.subs am ham m hm).idxT⟩⟩
+    -- the writable sets agree on the live connections
+    have hWW : WL ({ xA with wlist := wl } : State) (applyDepartures ({ a2 with w := wa } : A) preM) := by
+      intro am ham hal
+      rw [applyDepartures_eq] at ham ⊢
+      have ham2 : am ∈ a2.mods := alive_of_dep ham hal
+      have hopen : isOpen xA am.uid = true := by
+        have := hSA.alive am (by rw [applyDepartures_eq]; exact ham)
+        rw [← this]; exact hal
+      have hin : am.uid ∈ xA.mods.map (·.uid) := by
+        unfold isOpen at hopen
+        rw [List.any_eq_true] at hopen
+        obtain ⟨q, hq, hp⟩ := hopen
+        simp only [Bool.and_eq_true, beq_iff_eq] at hp
+        exact List.mem_map.mpr ⟨q, hq, hp.1⟩
+      have hin2 : am.uid ∈ (a2.mods.filter (·.alive)).map (·.uid) :=
+        List.mem_map.mpr ⟨am, List.mem_filter.mpr ⟨ham2, hal⟩, rfl⟩
+      show wa.contains am.uid = true ↔ am.uid ∈ wl
+      rw [← hw, ← hwa]
+      by_cases hre : reads.isEmpty = true
+      · simp [hre]
+      · simp only [hre, Bool.false_eq_true, if_false, List.contains_iff_mem, List.mem_filter]
+        constructor
+        · exact fun h => ⟨h.1, by simpa using hin⟩
+        · exact fun h => ⟨h.1, by simpa using hin2⟩
+    obtain ⟨segs, a', ho, hn, hI', hS', hW', hrT, hrR, hrE, hgo⟩ := go_sim ok hfuel reads hIW hSW hWW h0'
+    refine ⟨preM, segs, a', by rw [ho]; show xA.out ++ _ = _; rw [hoA], hnA, hn, hI', hS', hW', ?_, ?_, ?_, ?_, fun T hT hA => ?_⟩
     · exact (hrbA.trans0 (rb_same (s' := { xA with wlist := wl }) rfl rfl rfl)).trans0 (readAll_rb ok hfuel hna hord reads hIW.top)
     · rw [hrT, applyDepartures_eq]; show a2.recvT = _; rw [hr2T, hr1T]
     · rw [hrR, applyDepartures_eq]; show a2.recvR = _; rw [hr2R, hr1R]
@@ -1267,7 +1569,7 @@ theorem pre_sim {x : State} {a : A} (hI : MInv cfg x) (hS : Sim cfg x a) (hx : x
     simp only [Bool.or_eq_false_iff, Bool.not_eq_false'] at hC'
     have hre : reads = [] := by cases reads with | nil => rfl | cons _ _ => simp at hC'
     simp only [hC'.1, Bool.false_eq_true, if_false]
-    refine ⟨[], [], a1, by simp [flatSegs, hx1], NoRd.nil, (fun _ h => by cases h), hI1, hS1, RB.refl x1, hr1T, hr1R, hr1E, fun T _ _ => ?_⟩
+    refine ⟨[], [], a1, by simp [flatSegs, hx1], NoRd.nil, (fun _ h => by cases h), hI1, hS1, hW1, RB.refl x1, hr1T, hr1R, hr1E, fun T _ _ => ?_⟩
     subst hre
     simp [goCore]
 
@@ -1277,15 +1579,22 @@ omit ok hfuel in
 /-- **the periodic section keeps the simulation**: `a7` is the abstract state before `Spec.tail` (the table already
     carries the departures of the section's events `T`, the receive tallies `rT`, `rR` are bounded with respect to the
     state `x2` before the section) -/
-theorem tail_sim {x2 : State} {a' : A} (hidle : x2.inTraffic = false) (hS : Sim cfg x2 a')
+theorem tail_sim {x2 : State} {a' : A} (hidle : x2.inTraffic = false) (hS : Sim cfg x2 a') (hW : WL x2 a')
     (T : List Ev) (hE : EvE x2 (ticks cfg x2) T) (hd3 : UidsDistinct (ticks cfg x2)) (hao3 : AllOpen (ticks cfg x2))
     (rT rR : List ((Nat × Int) × Nat))
     (hrT : ∀ q ∈ rT, q.2 ≤ hmgr cfg (sinceTick .timingTick x2.hist) q.1.2)
     (hrR : ∀ q ∈ rR, q.2 ≤ hmgr cfg (sinceTick .trafficTick x2.hist) q.1.2) :
     Sim cfg (ticks cfg x2) (tailU cfg { a' with mods := depMods a'.mods (closes T), recvT := rT, recvR := rR }) ∧
-    RecvOK cfg (ticks cfg x2) (tailU cfg { a' with mods := depMods a'.mods (closes T), recvT := rT, recvR := rR }) := by
+    RecvOK cfg (ticks cfg x2) (tailU cfg { a' with mods := depMods a'.mods (closes T), recvT := rT, recvR := rR }) ∧
+    WL (ticks cfg x2) (tailU cfg { a' with mods := depMods a'.mods (closes T), recvT := rT, recvR := rR }) := by
   obtain ⟨mk, hh, hmk, ht1, ht2, hnow, hbuf, hid, htT, htR, hseq, htI⟩ := ticks_acc cfg x2 hidle
-  refine ⟨?_, ?_⟩
+  refine ⟨?_, ?_, ?_⟩
+  rotate_left 2
+  · obtain ⟨f1, f2, f3, f4, f5, f6, f7, f8, f9, f10, f11, f12, f13, f14, f15⟩ :=
+      tailU_fields cfg { a' with mods := depMods a'.mods (closes T), recvT := rT, recvR := rR }
+    refine wl_step hW hE.wlist (by rw [f6]) (fun am' ham' hal => ?_)
+    rw [f2] at ham'
+    exact ⟨am', alive_of_dep ham' hal, rfl, hal⟩
   · generalize ha7 : ({ a' with mods := depMods a'.mods (closes T), recvT := rT, recvR := rR } : A) = a7
     have f := tailU_fields cfg a7
     obtain ⟨f1, f2, f3, f4, f5, f6, f7, f8, f9, f10, f11, f12, f13, f14, f15⟩ := f
@@ -1295,11 +1604,13 @@ theorem tail_sim {x2 : State} {a' : A} (hidle : x2.inTraffic = false) (hS : Sim 
     have g4 : a7.tInfo = x2.tInfo := by subst ha7; exact hS.tI
     have g5 : a7.seq = x2.trafficSeq := by subst ha7; exact hS.seq
     refine ⟨by rw [f1, g1, hnow], by rw [f8, g1, g2, htT], by rw [f9, g1, g3, htR], by rw [f11, g1, g4, htI],
-      by rw [f10, g1, g3, g5, hseq], ?_, ?_, ?_, ?_, ?_, ?_, ?_, ?_, zero_step hS.zero (ticks_rk cfg (fun _ => false) x2) rfl hd3⟩
+      by rw [f10, g1, g3, g5, hseq], ?_, ?_, ?_, ?_, ?_, ?_, ?_, ?_, zero_step hS.zero (ticks_rk cfg (fun _ => false) x2) rfl hd3, ?_⟩
     rotate_left 6
     · rw [f5, hbuf]; subst ha7; exact hS.buf
     · rw [f2]; subst ha7
       exact fun m' hm' h0 => tab_step (p := fun _ => false) (fun m hm h0 _ => hS.tab m hm h0) (ticks_rk cfg _ x2) hE.cons hd3 hao3 m' hm' h0 rfl
+    · rw [f2]; subst ha7
+      exact fun am' ham' => sub_step (p := fun _ => false) (fun am ham _ => hS.subs am ham) (ticks_ikr cfg _ x2) hao3 am' ham' rfl
     · rw [f3]; subst ha7; exact hS.nacc.trans hE.nuid.symm
     · rw [f2]; subst ha7
       show (depMods a'.mods (closes T)).map (·.uid) = _
@@ -1351,7 +1662,11 @@ theorem tail_sim {x2 : State} {a' : A} (hidle : x2.inTraffic = false) (hS : Sim 
 omit ok hfuel in
 theorem sim_of_noErr {x : State} {a b : A} (h : b.noErr = a.noErr) (hs : Sim cfg x a) : Sim cfg x b := by
   rw [eq_of_noErr h]
-  exact ⟨hs.now, hs.tT, hs.tR, hs.tI, hs.seq, hs.nacc, hs.uids, hs.alive, hs.fail, hs.pubT, hs.pubR, hs.buf, hs.tab, hs.zero⟩
+  exact ⟨hs.now, hs.tT, hs.tR, hs.tI, hs.seq, hs.nacc, hs.uids, hs.alive, hs.fail, hs.pubT, hs.pubR, hs.buf, hs.tab, hs.zero, hs.subs⟩
+
+omit ok hfuel in
+theorem wl_of_noErr {x : State} {a b : A} (h : b.noErr = a.noErr) (hs : WL x a) : WL x b := by
+  rw [eq_of_noErr h]; exact hs
 
 omit ok hfuel in
 theorem recvOK_of_noErr {x : State} {a b : A} (h : b.noErr = a.noErr) (hs : RecvOK cfg x a) : RecvOK cfg x b := by
@@ -1383,6 +1698,7 @@ structure RInv (cfg : Cfg) (x : State) (a : A) : Prop where
   inv : MInv cfg x
   sim : Sim cfg x a
   recv : RecvOK cfg x a
+  wl : WL x a
 
 /-- rounds the generator produces: the manager's own table entry (uid 0) is never "read from" -/
 def RoundOK (r : Round) : Prop := ∀ rd ∈ r.reads, rd.uid ≠ 0
@@ -1407,14 +1723,16 @@ theorem round_pre {x : State} {a : A} (h : RInv cfg x a) (hna : MgrNotAll cfg) (
       PreTail cfg x a r x2 T { a' with mods := depMods a'.mods (closes T), recvT := rT, recvR := rR } lastIO ∧
       Sim cfg x2 a' ∧
       (∀ q ∈ rT, q.2 ≤ hmgr cfg (sinceTick .timingTick x2.hist) q.1.2) ∧
-      (∀ q ∈ rR, q.2 ≤ hmgr cfg (sinceTick .trafficTick x2.hist) q.1.2) := by
+      (∀ q ∈ rR, q.2 ≤ hmgr cfg (sinceTick .trafficTick x2.hist) q.1.2) ∧ WL x2 a' := by
   have hI0 : MInv cfg ({ x with out := [] } : State) := minv_same ok hfuel h.inv rfl rfl rfl rfl rfl rfl rfl rfl
   have hS0 : Sim cfg ({ x with out := [] } : State) a :=
     ⟨h.sim.now, h.sim.tT, h.sim.tR, h.sim.tI, h.sim.seq, h.sim.nacc, h.sim.uids, h.sim.alive, h.sim.fail, h.sim.pubT, h.sim.pubR,
-      h.sim.buf, h.sim.tab, h.sim.zero⟩
-  obtain ⟨preM, segs, a', ho, hnp, hns, hI2, hS2, hrb, heT, heR, heE, hgo⟩ := pre_sim ok hfuel hI0 hS0 rfl hna hord r hr
+      h.sim.buf, h.sim.tab, h.sim.zero,
+      fun am ham m hm => ⟨(h.sim.subs am ham m hm).all, (h.sim.subs am ham m hm).idxA, (h.sim.subs am ham m hm).idxT⟩⟩
+  have hW0 : WL ({ x with out := [] } : State) a := h.wl
+  obtain ⟨preM, segs, a', ho, hnp, hns, hI2, hS2, hW2, hrb, heT, heR, heE, hgo⟩ := pre_sim ok hfuel hI0 hS0 hW0 rfl hna hord r hr
   generalize hx2 : ioStep cfg (envStep ({ x with out := [] } : State) r) r.accept r.writable
-    (r.reads.filter (fun rd => ((envStep ({ x with out := [] } : State) r).find rd.uid).isSome)) = x2 at ho hI2 hS2 hrb
+    (r.reads.filter (fun rd => ((envStep ({ x with out := [] } : State) r).find rd.uid).isSome)) = x2 at ho hI2 hS2 hW2 hrb
   have hstep : stepR cfg x r = ticks cfg x2 := by
     unfold stepR step
     have : ({ x with out := [] } : State).crashed.isSome = false := by
@@ -1449,7 +1767,7 @@ theorem round_pre {x : State} {a : A} (h : RInv cfg x a) (hna : MgrNotAll cfg) (
     · have hne : segs.isEmpty = false := by cases segs with | nil => exact absurd rfl hse | cons _ _ => rfl
       simp only [hne, Bool.false_eq_true, if_false, hse, List.append_nil, rT, rR]
       rw [noteAll_eq, applyDepartures_eq]
-  refine ⟨x2, T, a', rT, rR, lastIO, ⟨hstep, hE, hI2, ?_, ?_, ?_, ?_, ?_, ?_⟩, hS2, ?_, ?_⟩
+  refine ⟨x2, T, a', rT, rR, lastIO, ⟨hstep, hE, hI2, ?_, ?_, ?_, ?_, ?_, ?_⟩, hS2, ?_, ?_, hW2⟩
   · rw [(q18_roundPre cfg a r _).1, hcore]
   · rw [(q18_roundPre cfg a r _).2, hcore]
     show a'.errs.filter _ = a.errs.filter _
@@ -1536,15 +1854,15 @@ theorem round_pre {x : State} {a : A} (h : RInv cfg x a) (hna : MgrNotAll cfg) (
     does), the Spec judges the model's own events of that round -/
 theorem round_inv {x : State} {a : A} (h : RInv cfg x a) (hna : MgrNotAll cfg) (hord : OrderGood cfg) (r : Round)
     (hr : RoundOK r) : RInv cfg (stepR cfg x r) (round cfg a r (stepR cfg x r).out) := by
-  obtain ⟨x2, T, a', rT, rR, lastIO, hP, hS2, hrT, hrR⟩ := round_pre ok hfuel h hna hord r hr
+  obtain ⟨x2, T, a', rT, rR, lastIO, hP, hS2, hrT, hrR, hW2⟩ := round_pre ok hfuel h hna hord r hr
   have hI3 : MInv cfg (ticks cfg x2) := ⟨top_ticks ok hfuel hP.inv2.top, ticks_K cfg hP.inv2.k, ticks_statInv hP.inv2.stat⟩
-  obtain ⟨hs, hrv⟩ := tail_sim hP.inv2.stat.idle hS2 T hP.ev hI3.k.distinct hI3.top.aopen rT rR hrT hrR
+  obtain ⟨hs, hrv, hwl⟩ := tail_sim hP.inv2.stat.idle hS2 hW2 T hP.ev hI3.k.distinct hI3.top.aopen rT rR hrT hrR
   have hne : (round cfg a r (stepR cfg x r).out).noErr =
       (tailU cfg { a' with mods := depMods a'.mods (closes T), recvT := rT, recvR := rR }).noErr := by
     rw [round_eq, tail_noErr]; exact tailU_noErr_congr cfg hP.pre
   rw [hP.step] at hne ⊢
   exact ⟨⟨top_ticks ok hfuel hP.inv2.top, ticks_K cfg hP.inv2.k, ticks_statInv hP.inv2.stat⟩,
-    sim_of_noErr hne hs, recvOK_of_noErr hne hrv⟩
+    sim_of_noErr hne hs, recvOK_of_noErr hne hrv, wl_of_noErr hne hwl⟩
 
 end withcfg
 
